@@ -354,7 +354,14 @@ func (g *gen) mkStruct(i int) *Decl {
 	if len(g.structs) > 0 && g.chance(0.12) {
 		emb := pick(g.rng, g.structs)
 		g.c.AddFeat("embedded-struct")
-		d.Fields = append(d.Fields, Field{Name: emb.Name, T: Ref("", emb.Name), Embedded: true})
+		ef := Field{Name: emb.Name, T: Ref("", emb.Name), Embedded: true}
+		// a tag on the embedded struct: without a name its fields are still promoted, with a name
+		// (or "-") it is a regular field
+		if g.chance(0.5) {
+			ef.Tag = pick(g.rng, []string{`json:",omitempty"`, `json:",inline"`, `json:""`, `json:"emb_` + strings.ToLower(emb.Name) + `"`, `json:"-"`, `json:"emb_` + strings.ToLower(emb.Name) + `,omitempty"`})
+			g.c.AddFeat("embedded-struct-tagged")
+		}
+		d.Fields = append(d.Fields, ef)
 	}
 	// an embedded field that is not a struct stays an ordinary field named after its type
 	if !g.opt.SQL && g.chance(0.1) {
